@@ -209,7 +209,7 @@ type opSpec struct {
 func evmReference() map[string]opSpec {
 	r := map[string]opSpec{
 		"STOP": {"", 0, 0, -1},
-		"ADD": {"opAdd", 2, 1, 3}, "MUL": {"opMul", 2, 1, 5}, "SUB": {"opSub", 2, 1, 3}, "DIV": {"opDiv", 2, 1, 5}, "SDIV": {"opSdiv", 2, 1, 5},
+		"ADD":  {"opAdd", 2, 1, 3}, "MUL": {"opMul", 2, 1, 5}, "SUB": {"opSub", 2, 1, 3}, "DIV": {"opDiv", 2, 1, 5}, "SDIV": {"opSdiv", 2, 1, 5},
 		"MOD": {"opMod", 2, 1, 5}, "SMOD": {"opSmod", 2, 1, 5}, "ADDMOD": {"opAddmod", 3, 1, 8}, "MULMOD": {"opMulmod", 3, 1, 8},
 		"EXP": {"opExp", 2, 1, -1}, "SIGNEXTEND": {"opSignExtend", 2, 1, 5},
 		"LT": {"opLt", 2, 1, 3}, "GT": {"opGt", 2, 1, 3}, "SLT": {"opSlt", 2, 1, 3}, "SGT": {"opSgt", 2, 1, 3}, "EQ": {"opEq", 2, 1, 3}, "ISZERO": {"opIszero", 1, 1, 3},
